@@ -7,3 +7,5 @@ pub assume_specification<T, F: FnOnce(T) -> bool>[ Option::<T>::is_some_and ](o:
 
 pub assume_specification<T, E, U, F: FnOnce(T) -> Result<U, E>>[ Result::<T, E>::and_then ](r: Result<T, E>, f: F) -> (o: Result<U, E>)
     ensures r matches Err(e) ==> o == Err::<U, E>(e), r matches Ok(t) ==> f.ensures((t,), o);
+pub assume_specification<T, E>[ Result::<T, E>::unwrap_or ](r: Result<T, E>, d: T) -> (o: T)
+    ensures o == (match r { Ok(t) => t, Err(_) => d });
